@@ -741,7 +741,7 @@ class Note:
                 else:
                     result += f".augment(frac({self.duration.numerator}, {self.duration.denominator}))"
 
-        if self.octave != 0 and self.is_note:
+        if self.octave != 0 and (self.is_note or self.type == 'x'):
             if not self.is_relative:
                 result += f".o({self.octave})"
             else:
